@@ -24,6 +24,7 @@ import ClairModel.Proofs.GoBin
 import ClairModel.Proofs.Jar
 import ClairModel.Proofs.RhelRepo
 import ClairModel.Proofs.DistScan
+import ClairModel.Proofs.LangScan
 
 -- every variable of a property statement is bound explicitly: a misspelt name is an error, not a new variable
 set_option autoImplicit false
@@ -959,5 +960,55 @@ example : ubuntuScan (some (DistScan.asc "DISTRIB_ID=Ubuntu\nDISTRIB_RELEASE=22.
 example : rhelScan false (some (DistScan.asc "Red Hat Enterprise Linux release 8.6 (Ootpa)\n")) none = .dist (mkRelease 8) := by decide
 
 end distscan
+
+/-! ## nodejs and ruby -/
+
+section langscan
+open ClairModel.LangScan
+open ClairModel.OsRelease (joinNl NotEndsWith)
+
+/-- Every `<dir>node_modules/<name>/package.json` is looked at, whatever the
+    directory and the (possibly scoped, possibly nested) package name; a
+    package.json outside `node_modules` (the application's own manifest) and a
+    whiteout are not. -/
+theorem nodejs_paths_exact (dir name p : Bytes) :
+    nodePick (dir ++ LangScan.asc "node_modules/" ++ name ++ LangScan.asc "/package.json") = true ∧
+    (LangScan.contains p (LangScan.asc "node_modules/") = false → nodePick p = false) ∧
+    nodePick (dir ++ LangScan.asc "node_modules/.wh.package.json") = false :=
+  ⟨nodePick_written dir name, nodePick_outside p, nodePick_whiteout dir⟩
+
+/-- A gemspec as `gem install` writes it — one line `  s.name = "n".freeze`,
+    one line `  s.version = "v".freeze` (any variable name without a dot, any
+    white space padding, single or double quotes, with or without `.freeze`),
+    in either order, between any lines that assign neither — is read as
+    exactly (n, v). Hypotheses the proof forced: the two values are not empty
+    and hold no white space or quote character; white space before the `=`;
+    every line shorter than 64 KiB (see `ruby_long_line_counterexample`). -/
+theorem ruby_gemspec_exact (n0 n1 n2 : List Bytes) (a b : Shape) (wa : a.WF) (wb : b.WF)
+    (hn0 : ∀ l ∈ n0, GNeutral l) (hn1 : ∀ l ∈ n1, GNeutral l) (hn2 : ∀ l ∈ n2, GNeutral l)
+    (hc1 : ∀ l ∈ n0 ++ a.line (LangScan.asc "name") :: (n1 ++ b.line (LangScan.asc "version") :: n2),
+      10 ∉ l ∧ NotEndsWith 13 l ∧ l.length < 65536)
+    (hc2 : ∀ l ∈ n0 ++ b.line (LangScan.asc "version") :: (n1 ++ a.line (LangScan.asc "name") :: n2),
+      10 ∉ l ∧ NotEndsWith 13 l ∧ l.length < 65536) :
+    gemspec (joinNl (n0 ++ a.line (LangScan.asc "name") :: (n1 ++ b.line (LangScan.asc "version") :: n2))) = some ⟨a.v, b.v⟩ ∧
+    gemspec (joinNl (n0 ++ b.line (LangScan.asc "version") :: (n1 ++ a.line (LangScan.asc "name") :: n2))) = some ⟨a.v, b.v⟩ :=
+  ⟨gemspec_written n0 n1 n2 a b wa wb hn0 hn1 hn2 hc1, gemspec_written_swapped n0 n1 n2 a b wa wb hn0 hn1 hn2 hc2⟩
+
+/-- The length hypothesis is needed: one line of 64 KiB (a long `s.files`
+    list) and the gem is not reported (recorded finding
+    ruby-gemspec-long-line-skipped). -/
+theorem ruby_long_line_counterexample (l : Bytes) (h : l.length ≥ 65536) (rest : Bytes) (h10 : 10 ∉ l) :
+    gemspec (l ++ 10 :: rest) = none := by
+  unfold gemspec
+  have : tooLong (splitOn 10 (l ++ 10 :: rest)) = true := by
+    rw [PyMeta.splitOn_append' 10 l rest, splitOn_no_sep 10 l h10]
+    cases hs : splitOn 10 rest with
+    | nil => exact absurd hs (splitOn_ne_nil 10 rest)
+    | cons x xs =>
+      have : decide (l.length ≥ maxToken) = true := by simp [maxToken]; omega
+      simp [tooLong, this]
+  simp [this]
+
+end langscan
 
 end ClairModel.Props.C02
